@@ -515,6 +515,8 @@ def run_resolver(prop, tier, seed, keep=False):
         w.build()
         # the sandwich the invariants rest on: MustMatch => MayMatch, monotone fixpoints (exhaustive over the label universe)
         exhaustive(w, prop, "LabelsLemma.tla", "LL.cfg", "Spec", ["Lemma"], {}, ev, "matching-sandwich-lemma", timeout=300)
+        # ... and without a bound (any names, types, subtypes, any implements-relation): TLAPS
+        tlaps_stage(w, ev, "LabelsProof.tla", "matching-sandwich-unbounded-proof", sync=("Labels.tla", lambda t: t, ["MayMatch", "MustMatch"]))
         allscn = []
         sid0 = 1
         for (profile, nq, nt) in spec["random"]:
